@@ -121,7 +121,8 @@ def _c18_event(op, pres, posts, par, ck_pre, ck_post, trace_kind=None):
         if not scale:
             return None
     ev = {'a': 'Op', 'op': op, 'err': '', 'tags': {'op': op}, 'pre': [], 'post': [], 'par': dict(c18.NOPAR),
-          'ck_pre': ck_pre, 'ck_post': ck_post, 'scale': int(scale), 'self': 1, 'lat': int(lat), 'test': _test()}
+          'ck_pre': ck_pre, 'ck_post': ck_post, 'scale': int(scale), 'self': 1, 'lat': int(lat), 'test': _test(),
+          'lib': dict(c18.LIB0)}
     pts = [[] for _ in arrays] if lat else points_enc(arrays, scale)
     ev['pre'] = [c18._am(x, pts[j]) for j, x in enumerate(pres)]
     ev['post'] = [c18._am(x, pts[len(pres) + j], kind=trace_kind if kind_of(x) == 'other' else None)
